@@ -8,6 +8,7 @@ import (
 	"os"
 	"os/exec"
 	"path/filepath"
+	"runtime"
 	"sort"
 	"strings"
 	"sync"
@@ -98,10 +99,35 @@ func runWitnesses(repo, verif, prop string, rep *kit.Report) {
 	for _, pf := range lims {
 		cands = append(cands, cand{filepath.Base(filepath.Dir(pf)), "limit", pf})
 	}
-	sort.Slice(cands, func(i, j int) bool { return cands[i].id < cands[j].id })
+	// this property's own variants first, then the others: a wall-clock budget (default 8 min,
+	// VCHECK_WITNESS_BUDGET=<minutes>, 0 = none) bounds one run; variants not yet analysed when it
+	// runs out are recorded as skipped (results already in the cache are always used). The budget
+	// never touches the verdict on /repo, which is computed before any variant is looked at.
+	sort.Slice(cands, func(i, j int) bool {
+		oi, oj := strings.HasPrefix(cands[i].id, prop+"-"), strings.HasPrefix(cands[j].id, prop+"-")
+		if oi != oj {
+			return oi
+		}
+		return cands[i].id < cands[j].id
+	})
+	budget := 8 * time.Minute
+	if v := os.Getenv("VCHECK_WITNESS_BUDGET"); v != "" {
+		var m int
+		if _, err := fmt.Sscanf(v, "%d", &m); err == nil {
+			budget = time.Duration(m) * time.Minute
+		}
+	}
+	started := time.Now()
 	repoHash := treeHash(repo)
 	results := make([]witness, len(cands))
-	sem := make(chan struct{}, 8)
+	workers := runtime.NumCPU() - 2
+	if workers < 4 {
+		workers = 4
+	}
+	if workers > 14 {
+		workers = 14
+	}
+	sem := make(chan struct{}, workers)
 	var wg sync.WaitGroup
 	for i, c := range cands {
 		wg.Add(1)
@@ -118,6 +144,10 @@ func runWitnesses(repo, verif, prop string, rep *kit.Report) {
 				w.AsWanted = w.Outcome == w.Expect || (w.Expect == "any" && (w.Outcome == "fired" || w.Outcome == "silent"))
 				results[i] = w
 			}()
+			if budget > 0 && time.Since(started) > budget && !variantCached(repoHash, c.patch, verif) {
+				w.Outcome = "skipped"
+				return
+			}
 			tmp, err := os.MkdirTemp("/tmp", "vwit")
 			if err != nil {
 				w.Outcome = "not-applicable"
@@ -152,20 +182,22 @@ func runWitnesses(repo, verif, prop string, rep *kit.Report) {
 		}(i, c)
 	}
 	wg.Wait()
-	ok, na := 0, 0
+	ok, na, skipped := 0, 0, 0
 	for _, w := range results {
 		if w.Outcome == "not-applicable" {
 			na++
+		} else if w.Outcome == "skipped" {
+			skipped++
 		} else if w.AsWanted {
 			ok++
 		}
 	}
 	rep.Extra["witnesses"] = results
-	rep.Extra["witness_summary"] = fmt.Sprintf("%d variants of the current tree analysed (%d breaking expected to fire, %d preserving expected silent, %d documented limits): %d as expected, %d not applicable, %d unexpected",
-		len(results), countKind(results, "breaking"), countKind(results, "preserving"), countKind(results, "limit"), ok, na, len(results)-ok-na)
+	rep.Extra["witness_summary"] = fmt.Sprintf("%d variants of the current tree (%d breaking expected to fire, %d preserving expected silent, %d documented limits): %d as expected, %d not applicable, %d unexpected, %d not analysed within the time budget of this run (this property's own variants come first; a later run continues from the cache)",
+		len(results), countKind(results, "breaking"), countKind(results, "preserving"), countKind(results, "limit"), ok, na, len(results)-ok-na-skipped, skipped)
 	fmt.Printf("witnesses: %s\n", rep.Extra["witness_summary"])
 	for _, w := range results {
-		if !w.AsWanted && w.Outcome != "not-applicable" {
+		if !w.AsWanted && w.Outcome != "not-applicable" && w.Outcome != "skipped" {
 			fmt.Printf("WITNESS-UNEXPECTED %s (%s): expected %s, got %s %v\n", w.ID, w.Kind, w.Expect, w.Outcome, w.Reports)
 		}
 	}
@@ -212,7 +244,8 @@ func treeHash(dir string) string {
 
 // variantResults analyses the patched copy in tmp for every property and returns the reports per
 // property. Results are cached under /tmp by (binary, unpatched tree, patch).
-func variantResults(repoHash, tmp, patch, verif string) (map[string][]string, string) {
+// variantCacheFile names the cache entry of (this binary, the unpatched tree, the patch).
+func variantCacheFile(repoHash, patch, verif string) (string, string) {
 	exe, _ := os.Executable()
 	h := sha256.New()
 	if st, err := os.Stat(exe); err == nil {
@@ -226,7 +259,18 @@ func variantResults(repoHash, tmp, patch, verif string) (map[string][]string, st
 	h.Write(pb)
 	key := fmt.Sprintf("%x", h.Sum(nil))[:32]
 	cacheDir := filepath.Join(os.TempDir(), "vcheck_wcache")
-	cacheFile := filepath.Join(cacheDir, key+".json")
+	return cacheDir, filepath.Join(cacheDir, key+".json")
+}
+
+func variantCached(repoHash, patch, verif string) bool {
+	_, f := variantCacheFile(repoHash, patch, verif)
+	_, err := os.Stat(f)
+	return err == nil
+}
+
+func variantResults(repoHash, tmp, patch, verif string) (map[string][]string, string) {
+	exe, _ := os.Executable()
+	cacheDir, cacheFile := variantCacheFile(repoHash, patch, verif)
 	type entry struct {
 		Reports map[string][]string `json:"reports"`
 		Ran     []string            `json:"ran"`
